@@ -577,28 +577,50 @@ pub fn run_c08(tier: Tier) -> i32 {
     }
     l.bound = format!("{} symbol probes (kinds x definition/use sites x local / other local package / build-packages package) x {} candidate names (15 keywords, valid and malformed identifiers of both cases, literals, operators, empty/space/multi-token, non-ASCII)", probes().len(), cands.len());
     rep.layer(l);
-    if tier == Tier::Thorough {
-        // prepare <=> rename at every identifier occurrence of the base workspaces
-        let mut l2 = Layer { name: "prepare-vs-rename-everywhere".into(), exhaustive: true, ..Default::default() };
-        for (name, ws) in base_workspaces() {
+    {
+        // at every identifier occurrence of the base workspaces and of the probe workspace:
+        // prepare <=> rename with a valid name; malformed names are refused; no edit in a dependency
+        let mut l2 = Layer { name: "every-identifier".into(), exhaustive: true, ..Default::default() };
+        let mut wss = base_workspaces();
+        wss.push(("c08".into(), c08_workspace().0));
+        let bad_names = ["", " ", "a b", "1", "fn", "+", "a.b", "é"];
+        for (name, ws) in wss {
             let files = ws.files();
             let host = ws.host();
             let an = host.snapshot();
+            let nonlocal: BTreeSet<FileId> = files.iter().filter(|f| !ws.packages[f.package].is_local).map(|f| f.id).collect();
             for f in files.iter().filter(|f| f.is_module) {
                 for (s, _, t) in occurrences(&f.text) {
                     l2.states += 1;
-                    l2.executions += 3;
-                    l2.transitions += 3;
+                    l2.executions += 3 + bad_names.len() as u64;
+                    l2.transitions += 3 + bad_names.len() as u64;
                     let prep = matches!(catch(|| an.prepare_rename(FilePos::new(f.id, s.into()))), Ok(Ok(Ok(_))));
-                    let lo = rename_edits(&an, f.id, s, "zz9").map(|r| r.is_ok()).unwrap_or(false);
-                    let up = rename_edits(&an, f.id, s, "Zz9").map(|r| r.is_ok()).unwrap_or(false);
-                    if prep != (lo || up) {
-                        rep.violation(Violation { class: "prepare-rename-disagree".into(), key: kind_key(&f.text, s), witness: json!({"workspace": name, "file": f.rel, "offset": s}), detail: format!("[{name}] {t:?} at {}:{s}: prepare_rename {} but rename with a valid name {}", f.rel, if prep { "accepts" } else { "refuses" }, if lo || up { "is accepted" } else { "is refused" }) });
+                    let lo = rename_edits(&an, f.id, s, "zz9");
+                    let up = rename_edits(&an, f.id, s, "Zz9");
+                    let ok = |r: &Result<Result<Edits, String>, String>| matches!(r, Ok(Ok(_)));
+                    if prep != (ok(&lo) || ok(&up)) {
+                        rep.violation(Violation { class: "prepare-rename-disagree".into(), key: kind_key(&f.text, s), witness: json!({"workspace": name, "file": f.rel, "offset": s}), detail: format!("[{name}] {t:?} at {}:{s}: prepare_rename {} but rename with a valid name {}", f.rel, if prep { "accepts" } else { "refuses" }, if ok(&lo) || ok(&up) { "is accepted" } else { "is refused" }) });
+                    }
+                    for r in [&lo, &up] {
+                        if let Ok(Ok(edits)) = r {
+                            if let Some(bad) = edits.keys().find(|k| nonlocal.contains(k)) {
+                                let rel = files.iter().find(|x| x.id == *bad).map(|x| x.path.clone()).unwrap_or_default();
+                                rep.violation(Violation { class: "edit-in-dependency".into(), key: kind_key(&f.text, s), witness: json!({"workspace": name, "file": f.rel, "offset": s}), detail: format!("[{name}] rename of {t:?} at {}:{s} edits {rel}, a file of a non-local package", f.rel) });
+                            }
+                            if nonlocal.contains(&f.id) {
+                                rep.violation(Violation { class: "accepted-but-must-refuse".into(), key: format!("inside-dependency|{}", kind_key(&f.text, s)), witness: json!({"workspace": name, "file": f.rel, "offset": s}), detail: format!("[{name}] rename of {t:?} at {}:{s}, inside a file of a non-local package, is accepted", f.rel) });
+                            }
+                        }
+                    }
+                    for bn in bad_names {
+                        if let Ok(Ok(_)) = rename_edits(&an, f.id, s, bn) {
+                            rep.violation(Violation { class: "accepted-but-must-refuse".into(), key: format!("malformed-name|{}", kind_key(&f.text, s)), witness: json!({"workspace": name, "file": f.rel, "offset": s, "name": bn}), detail: format!("[{name}] rename of {t:?} at {}:{s} to {bn:?} is accepted", f.rel) });
+                        }
                     }
                 }
             }
         }
-        l2.bound = "every identifier occurrence of the base workspaces: prepare_rename accepts <=> rename with a valid lowercase or uppercase name accepts".into();
+        l2.bound = "every identifier occurrence of the base workspaces w1-w5 and of the probe workspace: prepare_rename accepts <=> rename with a valid lowercase or uppercase name accepts; 8 malformed names are refused; no accepted rename edits a file of a non-local package or is accepted from inside one".into();
         rep.layer(l2);
     }
     rep.distinct_nontrivial = accepted;
